@@ -179,6 +179,17 @@ class Gen:
     def parser(self):
         rng = self.rng
         p = {"args": self.level(2, rng.randint(1, 4)), "sub": None}
+        # the canonical shape of an Optional[dataclass] parameter (`model.optim`): a top-level dataclass-typed argument with an
+        # Optional[dataclass] field that has a required and an optional int field.  Only there does the parameter's action live in
+        # the parser that is reused between parses; the random trees above reach this shape too rarely to rely on
+        if rng.random() < 0.35:
+            free = [n for n in POOL if n not in [a[0] for a in p["args"]]]
+            if free:
+                a, b, c = rng.sample(POOL, 3)
+                fs = [[a, ["odata", [[b, ["arg", True]], [c, ["arg", False]]]]]]
+                if rng.random() < 0.5:
+                    fs.append([rng.choice([n for n in POOL if n != a]), ["arg", False]])
+                p["args"].append([rng.choice(free), ["data", False, fs]])
         if rng.random() < 0.55:
             m = []
             # the arguments of a subcommand do not reuse a top-level name of the parent parser (see ASSUMPTIONS)
@@ -443,6 +454,31 @@ def empty_optional(fs, v):
     return False
 
 
+def inside_optional(p, path):
+    """the key at `path` lies inside the mapping of an Optional[dataclass] parameter (followed through groups, dataclasses, list items)"""
+    cur = p["args"]
+    if p["sub"] and path and path[0] in dict(p["sub"]["map"]):
+        cur = dict(p["sub"]["map"])[path[0]]
+        path = path[1:]
+    seen = False
+    for i, seg in enumerate(path):
+        if isinstance(seg, int):
+            continue
+        d = dict((n, dd) for n, dd in cur).get(seg)
+        if d is None or i == len(path) - 1:
+            return seen
+        k = d[0]
+        if k == "odata":
+            seen, cur = True, d[1]
+        elif k in ("group", "list"):
+            cur = d[1]
+        elif k == "data":
+            cur = d[2]
+        else:
+            return seen
+    return seen
+
+
 def mutants(rng, p, cfg, tier):
     """list of (label, cfg); configurations that give {} for an Optional[dataclass] are left out (ASSUMPTIONS)"""
     out = _mutants(rng, p, cfg, tier)
@@ -487,9 +523,12 @@ def _mutants(rng, p, cfg, tier):
                 out.append(("insert", insert(cfg, path, name, v)))
     rem = removable(cfg)
     for path, may_null in rem:
-        out.append(("remove", remove(cfg, path, False)))
+        # keys inside the mapping given for an Optional[dataclass] parameter get their own label: there are few of them and the
+        # quick tier never samples them away (the action of such a parameter keeps state between parses)
+        opt = "-in-optional" if inside_optional(p, path) else ""
+        out.append(("remove" + opt, remove(cfg, path, False)))
         if may_null:
-            out.append(("null", remove(cfg, path, True)))
+            out.append(("null" + opt, remove(cfg, path, True)))
     sub = p["sub"]
     if sub:
         c = copy.deepcopy(cfg)
@@ -554,8 +593,9 @@ def generate(rng, tier):
         cfg = valid_config(rng, p)
         ms = mutants(rng, p, cfg, tier)
         if tier == "quick" and len(ms) > 60:
-            keep = [m for m in ms[1:] if m[0].startswith("named-") or m[0] in ("no-subcommand", "misnamed-subcommand")]
-            rest = [m for m in ms[1:] if not (m[0].startswith("named-") or m[0] in ("no-subcommand", "misnamed-subcommand"))]
+            always = lambda m: m[0].startswith("named-") or m[0].endswith("-in-optional") or m[0] in ("no-subcommand", "misnamed-subcommand")
+            keep = [m for m in ms[1:] if always(m)][:40]
+            rest = [m for m in ms[1:] if m not in keep]
             ms = ms[:1] + keep + rng.sample(rest, max(0, 59 - len(keep)))
         for label, c in ms:
             chans = CHANNELS if (tier == "thorough" and label != "valid") else [rng.choice(CHANNELS)]
